@@ -20,7 +20,7 @@ NOT_APPLICABLE = {
     "C20": "per-instruction cycle mix is a pure function of instruction form and placement: " + PURE,
 }
 PENDING = "check not built yet in this session (claimed in DESIGN.md; will move to checks when its machinery is committed)"
-for p in ["C06", "C10", "C13", "C14", "C15", "C16", "C18"]:
+for p in ["C13", "C14", "C15", "C18"]:
     NOT_APPLICABLE[p] = PENDING
 
 CLAIMED = {
@@ -30,5 +30,26 @@ CLAIMED = {
         "design_ref": "DESIGN.md 5 (C17)",
         "level_text": "seeded exploration of interleavings of {update_modules(1..255), CPU writes to TCR/TCSR/TCORA/TCORB/TCNT} through the real Bus/ModuleManager/Timer8_0/InterruptController; after every update the observed TCNT/TCSR/new requests must be explained by at least one constant prescaler phase of the tick-by-tick model, and a re-partitioned twin run must end in the same registers and request sequence. Sampling, not proof.",
         "level_note": "trusts the 40-line tick model as the literal reading of the property (clear in the matching count; phase may restart at any TCR write; CKS 4-7 unchecked); generator stays inside the property's own exclusion (TCORA!=TCORB, both non-zero, when a clear source is selected)",
+    },
+    "C16": {
+        "engine": "des",
+        "technique": "deterministic simulation: seeded interleavings of CPU DDR/DR writes and external pin changes against a latch+direction+pins reference model, message-history check",
+        "design_ref": "DESIGN.md 5 (C16)",
+        "level_text": "seeded exploration of histories of {CPU write DDR_p, CPU write DR_p, external pins_p, time advances} on 1-3 of the 11 ports through the real Bus::write / Bus::write_port; after every operation DR of all 11 ports must read as the latch model says and the ioport message history must announce exactly the driven output (value, port, time stamp). Sampling, not the bounded-exhaustive enumeration the property text mentions.",
+        "level_note": "trusts the 10-line latch model; DDR read-back not asserted; redundant announcements of the current value are accepted",
+    },
+    "C10": {
+        "engine": "des",
+        "technique": "deterministic simulation: seeded injection of interrupt requests at instruction boundaries of generated guests inside the real run loop; delivery reference model (outstanding multiset), bounded liveness, queue cross-check, non-interference twin run",
+        "design_ref": "DESIGN.md 5 (C10)",
+        "level_text": "seeded exploration of request schedules x generated guests through the real Cpu::run (try_interrupt, interrupt entry, RTE, pause/start dispatch): every entry must be unmasked, of an outstanding request and consume exactly one; outstanding requests must be delivered within 8 unmasked running boundaries and none may remain at exit; the real queue must equal the model's outstanding multiset at every boundary; handler counters must equal observed entries; the same guest without requests must end in the same registers and memory.",
+        "level_note": "trusts the entry detector (SP-4 and PC behind the handler's leading BRN) and the generated guests' handlers being register-preserving; delivery order is not constrained",
+    },
+    "C06": {
+        "engine": "des",
+        "technique": "deterministic simulation: asynchronous interrupt arrival and TRAPA nesting histories in generated guests inside the real run loop; frame oracle at every entry, round-trip oracle (registers + memory digest) at every matching RTE",
+        "design_ref": "DESIGN.md 5 (C06)",
+        "level_text": "seeded exploration of nesting histories (depth > 50 reached) of interrupt entries and TRAPA #1-3 with random CCR values, vector top bytes, stacks in on-chip RAM and DRAM: frame bytes, SP, CCR (only I/UI may change), PC from the low 24 bits of the vector entry, and at the matching RTE CCR/PC/SP/ER0-6 and a digest of all memory outside the frame are compared with the state saved at entry.",
+        "level_note": "the digest covers vector area, both I/O register blocks, all on-chip RAM and the DRAM windows the guest uses; for non-empty handlers the stack at/below the frame and handler counters are excluded",
     },
 }
